@@ -128,7 +128,7 @@ func guardCmp1(name, xRe, ops, yRe string) Guard {
 			okOps["<"], okOps[">"] = true, true
 		}
 	}
-	return Guard{Name: name, Match: func(w *World, f *ssa.Function, a Atom) bool {
+	return Guard{Name: name, Key: "cmp:" + xRe + " " + ops + " " + yRe, Match: func(w *World, f *ssa.Function, a Atom) bool {
 		if a.Kind != "cmp" {
 			return false
 		}
